@@ -151,6 +151,7 @@ async def run_script(world, sess, obs: SessionObs, hostport):
                 await peer.send_raw(op[1].encode("latin-1"))
             elif kind == "reply":
                 rec["reply"] = await peer.reply()
+                rec["fs_n"] = world.fsctl.per_label.get(sess["label"], 0)
             elif kind == "pasv":
                 rec["code"] = await peer.passive(op[1])
             elif kind == "dconnect":
